@@ -5,6 +5,7 @@ go 1.23.0
 require (
 	github.com/Dash-Industry-Forum/livesim2 v0.0.0
 	github.com/Eyevinn/mp4ff v0.47.0
+	github.com/go-chi/chi/v5 v5.2.1
 	pgregory.net/rapid v1.3.0
 )
 
@@ -19,7 +20,6 @@ require (
 	github.com/dusted-go/logging v1.3.0 // indirect
 	github.com/fatih/structs v1.1.0 // indirect
 	github.com/fsnotify/fsnotify v1.8.0 // indirect
-	github.com/go-chi/chi/v5 v5.2.1 // indirect
 	github.com/klauspost/compress v1.18.0 // indirect
 	github.com/knadh/koanf v1.5.0 // indirect
 	github.com/mitchellh/copystructure v1.2.0 // indirect
